@@ -99,4 +99,30 @@ PROPS = {
              "SAN text taken from other positions must yield Err or a legal move, never a panic or a side effect; distinct_nontrivial = distinct (position, move) pairs needing disambiguation, a suffix, or a special move",
         assumptions=BASE_ASSUME,
     ),
+    "C15": dict(
+        crate="mon_text", cmd="c15", level="exploration",
+        floors={"quick": {"positive_Go": 10000, "positive_Position": 10000, "positive_SetOption": 1000, "positive_Register": 1000, "positive_Debug": 1000, "negative_*": 50000, "fuzz_lines": 50000, "move_round_trips": 28672}},
+        rule="positive: abstract command values (all 12 command kinds; every subset and permutation of the twelve go parameters with values from {0,1,2,2^31,2^63-1,2^64-1,random}; position startpos / 4- and 6-field FENs with 0-200 reference-legal moves; multi-word option / registration names) rendered by the monitor's own writer with 1-5 spaces between tokens and optional leading/trailing space, parsed, and compared field by field with the value they were rendered from; "
+             "negative: lines with one injected fault of a listed class (unknown / upper-case / non-ASCII first word, missing parameter, bad / negative / out-of-range number, bad move token, bad FEN, duplicated go parameter, unknown go token) must parse to Err; "
+             "fuzz: random UTF-8, single and double mutants of valid lines, 1000-20000-move lines, and move tokens on their own must never panic; UciMove text round trip over all 64x64x7 values (exhaustive); distinct_nontrivial = distinct faulty lines + distinct go parameter orderings + distinct move texts",
+        assumptions=BASE_ASSUME + ["over-long move tokens, tab separators, the null move 0000 in move lists, negative durations and trailing junk after complete commands are unspecified and only required not to panic"],
+    ),
+    "C17": dict(
+        crate="mon_text", cmd="c17", level="exploration",
+        floors={"quick": {"games": 5000, "castling_moves": 500, "databases_with_unnumbered_black_castling": 50, "games_without_comments": 1000, "games_with_comments": 1000, "result_*": 5000, "layout_final_newline_false": 200, "reader_mode_1": 1000, "reader_mode_2": 1000, "reader_mode_3": 1000, "games_replayed_on_board": 5000}},
+        rule="databases of 1-12 games (reference walks from the start position, SAN from the reference writer, 7-18 Lichess-style tag lines, no / clock / eval+clock / mixed comments with Lichess's `n...` numbering of Black's move after a comment, all four result tokens, with/without final newline, 1-2 blank lines between games) rendered by the monitor's writer; "
+             "each database read under 20 (thorough: 40) reader configurations: chunk sizes {1,2,3,5,7,8,13,64,1000,8192,|D|-1,|D|,|D|+1} x readers that return full reads / random short reads / one byte at a time / short reads aligned just before or after every delimiter; "
+             "yielded games compared with the written ones (count, tag map, SAN texts in order, exact comment text, no Err items), and replayed through pgn_to_bb + make to the reference end position; distinct_nontrivial = distinct (database, configuration) pairs with >= 2 games and >= 1 castling move",
+        assumptions=BASE_ASSUME + ["tag values are ASCII without quotes; reader I/O errors are not injected"],
+    ),
+    "C19": dict(
+        crate="mon_lichess", cmd="c19", level="exploration",
+        floors={"quick": {"shape_gameFull": 5000, "shape_gameState": 5000, "shape_chatLine": 5000, "shape_opponentGone": 5000, "shape_gameStart": 5000, "shape_gameFinish": 5000, "shape_challenge": 5000, "shape_challengeCanceled": 5000, "shape_challengeDeclined": 5000,
+                          "key_order_shuffled": 10000, "with_json_escapes": 10000, "documents_with_no_moves": 1000, "moves_decoded": 100000}},
+        rule="JSON documents of the nine shapes rendered by the monitor's own writer from abstract messages: move lists from reference walks (0-300 moves, castling, promotions; empty string and missing field), every enumerated status / variant / speed / perf / source / decline-reason / direction / colour / room key, "
+             "every optional field independently present / null / absent, numbers at the u32 edges, string values with JSON escapes (quote, backslash, newline, \\uXXXX incl. surrogate pairs, escaped slashes) and raw UTF-8, object keys in random order (type tag not first); "
+             "decoded with serde_json::from_str::<BotGameState|BotEvent>, re-encoded with the derived Serialize and compared path by path with the source document (catches silently dropped fields), plus direct checks of moves / clocks / status and replay of the move list through UciMove::from_str and Bitboard::make_uci; "
+             "distinct_nontrivial = distinct documents",
+        assumptions=BASE_ASSUME + ["enumerated keys are generated in the model's own spelling (the public API documentation cannot be consulted offline); `rules` only in comma-separated string form with known rule names"],
+    ),
 }
